@@ -18,7 +18,10 @@ def path_str_to_parts(path_str: str):
 
 RESERVED_KEYWORDS = {
     'PERSIST', 'IF', 'EXISTS', 'NULLS', 'FIRST', 'LAST',
-    'ORDER', 'BY', 'GROUP', 'PARTITION'
+    'ORDER', 'BY', 'GROUP', 'PARTITION',
+    # single-word keywords whose token name contains '_' (skipped by get_reserved_words) and
+    # that are not accepted as identifiers by the grammars
+    'ML_ENGINE', 'KNOWLEDGE_BASE', 'PRIMARY_KEY', 'PERSIST_ONLY', 'SEARCH_PATH'
 }
 
 
